@@ -32,11 +32,29 @@ fn gen(rng: &mut Rng, case: u64) -> Case {
     let mut cur = cmd0;
     let mut steps = Vec::with_capacity(len);
     let const_dt = if rng.chance(0.3) { Some(rng.step_ns(1_000, 3_600_000_000_000)) } else { None };
+    // creeping cases: every component of the state moves by a few units in the last place of its ERROR from sample to
+    // sample (slow axis, distant setpoint): the D term is then a small exact difference of nearby errors
+    let creep = rng.chance(0.15);
     for _ in 0..len {
         t += if rng.chance(0.08) { rng.range_i64(1, 200) } else { const_dt.unwrap_or_else(|| rng.step_ns(1_000, 3_600_000_000_000)) };
         let input = match rng.below(14) { 0 => Ev::None, 1 => Ev::Err(rng.err_code()), 2 => { let c = f32::from(cur); Ev::Some(t, [c, c, c]) } // error exactly zero
             3 => match steps.iter().rev().find_map(|s: &Step| if let Ev::Some(_, v) = s.input { Some(v) } else { None }) { Some(v) => Ev::Some(t, v), None => Ev::Some(t, [rng.moderate(1e3), rng.moderate(1e3), rng.moderate(1e3)]) }, // same state again
-            _ => Ev::Some(t, [rng.moderate(1e3), rng.moderate(1e3), rng.moderate(1e3)]) };
+            _ => {
+                let prev = steps.iter().rev().find_map(|s: &Step| if let Ev::Some(_, v) = s.input { Some(v) } else { None });
+                match prev {
+                    Some(p) if creep => {
+                        let c = f32::from(cur) as f64;
+                        let mut v = p;
+                        for j in 0..3 {
+                            let e = c - p[j] as f64;
+                            if e.abs() >= 1e-3 { v[j] = (p[j] as f64 + rng.sign() * (1 + rng.below(24)) as f64 * e.abs() * (2.0f64).powi(-23)) as f32; }
+                        }
+                        Ev::Some(t, v)
+                    }
+                    _ => Ev::Some(t, [rng.moderate(1e3), rng.moderate(1e3), rng.moderate(1e3)]),
+                }
+            }
+        };
         let mut set = None;
         let mut follow = None;
         let pick_cmd = |rng: &mut Rng, cur: Command| match rng.below(3) { 0 => cur, 1 => Command::new(PositionDerivative::from(cur), rng.moderate(1e3)), _ => gen_cmd(rng) };
@@ -172,15 +190,23 @@ fn main() {
                     } else {
                         let dt = (*t - r.t) as f64 / 1e9;
                         let d = (e - r.e) / dt;
-                        let dm = (e.abs() + r.e.abs()) / dt;
+                        // D term: each error e = fl(command - component) carries at most 2^-24|e|, so the difference quotient
+                        // carries (|e| + |e_prev|)/dt (x3 for safety) plus a few roundings relative to the quotient itself; a
+                        // bound of K x (|e|+|e_prev|)/dt would hide a derivative that is wrong by many times its own size
+                        // when consecutive errors are close
+                        let dm = (3.0 * (e.abs() + r.e.abs()) / dt + 12.0 * d.abs()) / kk(r.n + 1);
+                        if e != r.e && (e - r.e).abs() <= 16.0 * (2.0f64).powi(-23) * e.abs().max(r.e.abs()) { rep.tally("steps_with_error_change_of_a_few_ulps"); }
                         let ia = (r.e + e) / 2.0 * dt;
                         let iam = (r.e.abs() + e.abs()) / 2.0 * dt;
                         let ei = if r.n == 1 { V { v: ia, m: iam } } else { V { v: r.ei.v + ia, m: r.ei.m + iam } };
                         let u = V { v: kp * e + ki * ei.v + kd * d, m: (kp * e).abs() + ki.abs() * ei.m + kd.abs() * dm };
-                        let ua = V { v: (r.u.v + u.v) / 2.0 * dt, m: (r.u.m + u.m) / 2.0 * dt };
+                        // the integrations' own roundings (relative to what they add up), which the K x magnitude of the P and I
+                        // parts used to cover and the tight D part no longer does
+                        let k1 = kk(r.n + 1);
+                        let ua = V { v: (r.u.v + u.v) / 2.0 * dt, m: (r.u.m + u.m) / 2.0 * dt + 6.0 * (r.u.v.abs() + u.v.abs()) / 2.0 * dt / k1 };
                         let ui = if r.n == 1 { ua } else { V { v: r.ui.v + ua.v, m: r.ui.m + ua.m } };
                         let uii = if r.n >= 2 {
-                            let a = V { v: (r.ui.v + ui.v) / 2.0 * dt, m: (r.ui.m + ui.m) / 2.0 * dt };
+                            let a = V { v: (r.ui.v + ui.v) / 2.0 * dt, m: (r.ui.m + ui.m) / 2.0 * dt + 6.0 * (r.ui.v.abs() + ui.v.abs()) / 2.0 * dt / k1 };
                             if r.n == 2 { a } else { V { v: r.uii.v + a.v, m: r.uii.m + a.m } }
                         } else { V::default() };
                         r = Ref { n: r.n + 1, t: *t, e, u, ei, ui, uii };
@@ -236,6 +262,7 @@ fn main() {
         }
     }
     for k in ["position", "velocity", "acceleration"] { rep.floor(&format!("stage/{}/present", k), 500); }
+    rep.floor("steps_with_error_change_of_a_few_ulps", 500);
     rep.floor("stage/velocity/absent-1st", 100);
     rep.floor("stage/acceleration/absent-2nd", 100);
     rep.floor("restart_by_set_different", 100);
